@@ -77,4 +77,44 @@ theorem nameOK_of_xmlName (n : Bytes) (h : XmlName n) : NameOK n := by
   | nil => exact h.elim
   | cons c r => exact ⟨xmlNameStart_ok c h.1, fun x hx => xmlNameByte_ok x (h.2 x hx)⟩
 
+theorem within_trans_child {c k n : Node} (h : Within c k) (hk : k ∈ children n) : Within c n := by
+  induction h with
+  | self => exact Within.child (Within.self n) hk
+  | child _ hc ih => exact Within.child (ih hk) hc
+
+mutual
+theorem mem_preorder_within : ∀ (n c : Node), c ∈ preorder n → Within c n
+  | .text i p t, c, h => by
+    simp only [preorder, List.mem_singleton] at h
+    subst h; exact Within.self _
+  | .elem i p t a cs, c, h => by
+    simp only [preorder, List.mem_cons] at h
+    rcases h with rfl | h
+    · exact Within.self _
+    · obtain ⟨k, hk, hc⟩ := mem_preorderL cs c h
+      exact within_trans_child hc (by simpa [children] using hk)
+theorem mem_preorderL : ∀ (cs : List Node) (c : Node), c ∈ preorderL cs → ∃ k ∈ cs, Within c k
+  | [], c, h => by simp [preorderL] at h
+  | n :: r, c, h => by
+    simp only [preorderL, List.mem_append] at h
+    rcases h with h | h
+    · exact ⟨n, by simp, mem_preorder_within n c h⟩
+    · obtain ⟨k, hk, hc⟩ := mem_preorderL r c h
+      exact ⟨k, by simp [hk], hc⟩
+end
+
+theorem linksOK_survivor (c : Node) : linksOK (survivor c) = linksOK c := linksOK_clearParent c
+
+
+theorem links_of_linksOK {n : Node} (hn : linksOK n = true) :
+    ∀ e, Within e n → ∀ c ∈ children e, c.parent = some e.id := by
+  intro e he c hc
+  have := within_links he hn
+  cases e with
+  | text => simp [children] at hc
+  | elem id p t a cs =>
+    simp only [children] at hc
+    simp only [linksOK] at this
+    exact (kidsOK_mem id cs this c hc).1
+
 end AslProofs.Xml
